@@ -13,7 +13,7 @@ from yaml.events import (
 
 from yatiml.representers import (EnumRepresenter, Representer,
                                  PathRepresenter, UserStringRepresenter)
-from yatiml.util import is_string_like
+from yatiml.util import is_string_like, yaml12_float_regex
 
 
 logger = logging.getLogger(__name__)
@@ -162,6 +162,10 @@ class Dumper(yaml.SafeDumper):
             self.stream.write(' ' * self._cur_indent)
 
 
+# The Loader reads floats in YAML 1.2 format, so strings that look like
+# one (e.g. 1e5) must be quoted, also if YAML 1.1 sees a string in them.
+Dumper.add_implicit_resolver(
+        'tag:yaml.org,2002:float', yaml12_float_regex, list('-+0123456789.'))
 Dumper.add_representer(OrderedDict, Dumper.represent_ordereddict)
 Dumper.add_representer(PosixPath, PathRepresenter())
 Dumper.add_representer(WindowsPath, PathRepresenter())
